@@ -220,6 +220,7 @@ End S.
 (* S tracks primary values only: the second value of ignore-errors is dropped before comparing *)
 Fixpoint norm (v : value) : value :=
   match v with VNilVals => VNil | VRetM t w => VRetM t (norm w) | _ => v end.
+Definition norm_res (r : mres) : mres := match r with MVal v => MVal (norm v) | _ => r end.
 
 Definition srun (fuel : nat) (p : prog) (st : state) : outcome * state := seval (fst p) fuel [] [] (snd p) st.
 
@@ -242,16 +243,19 @@ Definition to_mres (o : outcome) : mres :=
 (* mvfree f: the value of f is never the two-valued object of ignore-errors (conservative, syntactic).
    when.go / cond.go test "EvalArg(...) != nil" on the raw object, so (when (ignore-errors (error "x")) ...)
    takes the branch: such tests are outside the guard. *)
+Section MV.
+  Variable mv : form -> bool.
+  Fixpoint last_ok (fs : list form) : bool :=
+    match fs with [] => true | [f] => mv f | _ :: r => last_ok r end.
+  Fixpoint clauses_ok (cs : list (form * list form)) : bool :=
+    match cs with [] => true | (_, b) :: r => last_ok b && clauses_ok r end.
+End MV.
 Fixpoint mvfree (f : form) {struct f} : bool :=
-  let lastmv := fix lastmv (fs : list form) : bool :=
-                  match fs with [] => true | [f] => mvfree f | _ :: r => lastmv r end in
   match f with
   | Const _ | Tr _ | Signal _ | Incf _ | Lt _ _ | CallList _ | Progn _ | Tagbody _
   | ReturnFrom _ _ | Return _ | Go _ => true
-  | When _ body | Let _ body | WithMutex _ body | WithFile _ body => lastmv body
-  | Cond cs =>
-      (fix gc (cs : list (form * list form)) : bool :=
-         match cs with [] => true | (c, b) :: r => lastmv b && gc r end) cs
+  | When _ body | Let _ body | WithMutex _ body | WithFile _ body => last_ok mvfree body
+  | Cond cs => clauses_ok mvfree cs
   | UnwindProtect _ p _ => mvfree p
   | _ => false
   end.
@@ -272,11 +276,19 @@ Section Guard.
     | f :: r => gd pb R1 G1 f && g_seq pb R1 G1 R2 G2 r
     end.
   (* statements of a tagbody-like body: a go reaches only the tags written AFTER the statement *)
-  Fixpoint g_items (R : list N) (items : list item) : bool :=
+  Fixpoint g_items (pb : bool) (R : list N) (items : list item) : bool :=
     match items with
     | [] => true
-    | ITag t :: r => g_items R r
-    | IForm f :: r => compound f && gd true R (tags_of r) f && g_items R r
+    | ITag t :: r => g_items pb R r
+    | IForm f :: r => compound f && gd pb R (tags_of r) f && g_items pb R r
+    end.
+  (* cond: tests deliver nothing and are not two-valued objects; bodies are non-empty implicit progns *)
+  Fixpoint g_clauses (pb : bool) (R G : list N) (cs : list (form * list form)) : bool :=
+    match cs with
+    | [] => true
+    | (c, b) :: r =>
+        mvfree c && gd pb [] [] c && negb (match b with [] => true | _ => false end) &&
+        g_seq pb [] [] R G b && g_clauses pb R G r
     end.
 End Guard.
 
@@ -286,24 +298,14 @@ Fixpoint gd (pb : bool) (R G : list N) (f : form) {struct f} : bool :=
   | CallList args => g_all gd pb [] [] args
   | Progn body => g_seq gd pb [] [] R G body
   | When c body => mvfree c && gd pb [] [] c && g_seq gd pb [] [] R G body
-  | Cond cs =>
-      (fix gc (cs : list (form * list form)) : bool :=
-         match cs with
-         | [] => true
-         | (c, b) :: r => mvfree c && gd pb [] [] c && negb (match b with [] => true | _ => false end) && g_seq gd pb [] [] R G b && gc r
-         end) cs
+  | Cond cs => g_clauses gd pb R G cs
   | Let inits body => g_all gd pb [] [] inits && g_all gd false R G body
   | Block t body => g_seq gd true (t :: R) [] (t :: R) G body
   | ReturnFrom t e => memN t R && gd pb [] [] e
   | Return e => memN 0%N R && gd pb [] [] e
   | Tagbody items =>
       forallb (fun t => negb (sym_tag t)) (tags_of items) && nodupN (tags_of items) &&
-      (fix gi (items : list item) : bool :=
-         match items with
-         | [] => true
-         | ITag _ :: r => gi r
-         | IForm f :: r => compound f && gd false [] (tags_of r) f && gi r
-         end) items
+      g_items gd false [] items
   | Go t => memN t G
   | UnwindProtect _ p cs => gd pb R G p && g_all gd pb [] [] cs
   | IgnoreErrors body => g_seq gd pb [] [] R G body
@@ -311,9 +313,9 @@ Fixpoint gd (pb : bool) (R G : list N) (f : form) {struct f} : bool :=
   | WithMutex _ body => g_seq gd pb [] [] R G body
   | WithFile _ body => g_seq gd false [] [] R G body
   | Loop _ _ body res =>
-      nodupN (tags_of body) && g_items gd (0%N :: R) body && gd true [] [] res
+      nodupN (tags_of body) && g_items gd true (0%N :: R) body && gd true [] [] res
   | Do _ body res =>
-      nodupN (tags_of body) && g_items gd (0%N :: (if pb then R else [])) body && g_all gd true [] [] res
+      nodupN (tags_of body) && g_items gd true (0%N :: (if pb then R else [])) body && g_all gd true [] [] res
   | Lam body => g_seq gd true R [] R G body
   | CallU _ => true
   end.
